@@ -48,7 +48,7 @@ def main(ck):
 
   def go(key, jobs, asan):
     out[key] = asanproc.run_jobs('checks.c19_worker', jobs, nproc=(6 if ck.quick else 8), asan=asan, tag='C19' + key,
-                                 timeout=3000)
+                                 timeout=(600 if ck.quick else 3000), stall=(150 if ck.quick else 400))
   ths = [threading.Thread(target=go, args=('rel', jobs_rel, False)),
          threading.Thread(target=go, args=('asan', jobs_asan, True))]
   for t in ths:
@@ -63,6 +63,10 @@ def main(ck):
           ck.extra[k] = v
       elif res.get('harness'):
         raise RuntimeError('worker setup failed (%s): %s' % (job, res['stderr'][-1500:]))
+      elif asanproc.is_asan_compile_loop(res):
+        # ASan-build-only endless loop in mjCModel::Compile (see LEVEL_NOTE): the shard is abandoned, not judged
+        ck.discard('shard aborted: ASan-build compile loop (instrumentation artefact)')
+        ck.extra['asan_compile_loop_model'] = ((res.get('journal') or {}).get('xml') or '')[:2000]
       else:
         ck.violation('worker process died (%s, rc=%s) in %s @ %s\n%s' % (
             res['kind'], res['rc'], job['family'], res['frame'], (res['report'] or res['stderr'])[:3000]),
@@ -84,4 +88,6 @@ Not covered: exhaustive interleavings of concurrent reservations (OS-scheduled t
 branch under ASan - in the ASan build mju_dispatch (engine_thread.cc, C++) always fails MuJoCo's own "mj_markStack has no
 corresponding mj_freeStack" check because the always_inline wrappers of mjsan.h symbolize as "mj_markStack(mjData_*)" in C++
 translation units and are not recognised by the ignore list in engine_crossplatform.cc (reported as a finding, instrumentation
-only); arena alignments > 64 (base alignment of the arena).'''
+only); arena alignments > 64 (base alignment of the arena). A second ASan-build-only artefact: when a model fails to compile with an
+engine error while a stack frame is open, mjCModel::Compile loops forever (mj_deleteData's dangling-frame check raises inside the catch
+block and the compiler's handler longjmps back into the try block); a stalled worker with that backtrace is abandoned, not judged.'''
